@@ -1,6 +1,7 @@
 package props
 
 import (
+	"encoding/binary"
 	"fmt"
 	"os"
 	"sort"
@@ -19,8 +20,9 @@ const c03DeepCases = 16
 func c03Deep(c *core.Ctx, idx int) {
 	r := c.Rand()
 	def := &schema.StoreDef{Type: "gizmos", BasePath: []string{"app", "v1", "stores"},
-		Fields: []schema.Field{{Name: "code", Kind: schema.KStr}, {Name: "alt", Kind: schema.KStr}, {Name: "tags", Kind: schema.KList}, {Name: "zones", Kind: schema.KList}},
-		Unique: []schema.UniqueDef{{Field: "code", Nullable: false}, {Field: "alt", Nullable: true}}, SetIdx: []string{"tags", "zones"}}
+		Fields: []schema.Field{{Name: "code", Kind: schema.KStr}, {Name: "alt", Kind: schema.KStr}, {Name: "tags", Kind: schema.KList}, {Name: "zones", Kind: schema.KList}, {Name: "num", Kind: schema.KI64}},
+		// num: a unique index over an integer field (its entries are keyed by the stored bytes)
+		Unique: []schema.UniqueDef{{Field: "code", Nullable: false}, {Field: "alt", Nullable: true}, {Field: "num", Nullable: true}}, SetIdx: []string{"tags", "zones"}}
 	sc := schema.Build([]*schema.StoreDef{def})
 	path := c.TempFile("c03d")
 	db, err := sc.OpenDb(path)
@@ -33,6 +35,13 @@ func c03Deep(c *core.Ctx, idx int) {
 	type giz struct {
 		code, alt   string
 		tags, zones []string
+		num         int64 // 0 = null
+	}
+	nums := []int64{1, 2, 1 << 40, -5}
+	numKey := func(v int64) []byte {
+		b := make([]byte, 8)
+		binary.LittleEndian.PutUint64(b, uint64(v))
+		return b
 	}
 	model := map[string]*giz{}
 	ids := []string{"g1", "g2", "g3", "g4"}
@@ -42,7 +51,7 @@ func c03Deep(c *core.Ctx, idx int) {
 	for step := 0; step < 40; step++ {
 		id := core.Pick(r, ids)
 		op := core.Pick(r, []string{"create", "create", "update", "update", "delete"})
-		g := &giz{code: core.Pick(r, codes), alt: core.Pick(r, []string{"", "", "bob", "red", "x"}), tags: core.Subset(r, tags, 0.4), zones: core.Subset(r, tags, 0.3)}
+		g := &giz{code: core.Pick(r, codes), alt: core.Pick(r, []string{"", "", "bob", "red", "x"}), tags: core.Subset(r, tags, 0.4), zones: core.Subset(r, tags, 0.3), num: core.Pick(r, append([]int64{0, 0}, nums...))}
 		_, exists := model[id]
 		expectOk := true
 		switch op {
@@ -53,7 +62,7 @@ func c03Deep(c *core.Ctx, idx int) {
 		}
 		if op != "delete" {
 			for oid, o := range model {
-				if oid != id && (o.code == g.code || (g.alt != "" && o.alt == g.alt)) {
+				if oid != id && (o.code == g.code || (g.alt != "" && o.alt == g.alt) || (g.num != 0 && o.num == g.num)) {
 					expectOk = false
 				}
 			}
@@ -63,7 +72,11 @@ func c03Deep(c *core.Ctx, idx int) {
 			altV = nil
 		}
 		opErr := db.Update(nil, func(ctx boltz.MutateContext) error {
-			e := &schema.Ent{Id: id, Typ: "gizmos", V: map[string]any{"code": g.code, "alt": altV, "tags": g.tags, "zones": g.zones}}
+			var numV any
+			if g.num != 0 {
+				numV = g.num
+			}
+			e := &schema.Ent{Id: id, Typ: "gizmos", V: map[string]any{"code": g.code, "alt": altV, "tags": g.tags, "zones": g.zones, "num": numV}}
 			switch op {
 			case "create":
 				return st.Store.Create(ctx, e)
@@ -101,6 +114,17 @@ func c03Deep(c *core.Ctx, idx int) {
 					if got := string(st.Unique[u.name].Read(tx, []byte(v))); got != want {
 						c.Violationf("C03 deep base path: unique index "+u.name+" does not mirror the entities", info, "index %s[%q] = %q, expected %q", u.name, v, got, want)
 					}
+				}
+			}
+			for _, v := range nums {
+				want := ""
+				for oid, o := range model {
+					if o.num == v {
+						want = oid
+					}
+				}
+				if got := string(st.Unique["num"].Read(tx, numKey(v))); got != want {
+					c.Violationf("C03 deep base path: unique index over an integer field does not mirror the entities", info, "index num[%d] = %q, expected %q", v, got, want)
 				}
 			}
 			for _, sidx := range []struct {
